@@ -22,7 +22,7 @@ IsDecimalText(t) ==
     /\ t # "" /\ d > s
     /\ \/ d = Len(t) + 1
        \/ (At(t, d) = "." /\ SkipWhile(t, d + 1, Digits) = Len(t) + 1 /\ Len(t) - d <= 9)
-DecimalFix(t) ==
+DecimalFixPlain(t) ==
     LET neg == At(t, 1) = "-"
         s == IF At(t, 1) \in {"-", "+"} THEN 2 ELSE 1
         d == SkipWhile(t, s, Digits)
@@ -31,6 +31,16 @@ DecimalFix(t) ==
         fr == IF nf = 0 THEN 0 ELSE DigitsVal(t, d + 1, Len(t), 0) * Pow10(9 - nf)
         v == <<ip, fr>> IN
     IF neg THEN FNeg(v) ELSE v
+(* Python writes floats below 1e-4 in exponent form ("1.5e-05", "-4e-07"): mantissa (< 10) times 10^-k *)
+ExpPos(t) == LET S == { i \in 1..Len(t) : At(t, i) = "e" } IN IF S = {} THEN 0 ELSE CHOOSE i \in S : TRUE
+DecimalFix(t) ==
+    LET e == ExpPos(t) IN
+    IF e = 0 \/ At(t, e + 1) # "-" THEN DecimalFixPlain(t)
+    ELSE LET neg == At(t, 1) = "-"
+             m == FAbs(DecimalFixPlain(SubSeq(t, 1, e - 1)))
+             k == DigitsVal(t, e + 2, Len(t), 0)
+             v == IF k > 9 THEN FZero ELSE <<0, m[1] * Pow10(9 - k) + m[2] \div Pow10(k)>> IN
+         IF neg THEN FNeg(v) ELSE v
 
 (* ---------------------- vocabulary known a priori ---------------------- *)
 NameComp(name) ==
